@@ -38,7 +38,7 @@ type storeSnap struct {
 	fullCode map[string]string
 
 	codeOrder, accessOrder, refreshOrder, pkceOrder, oidcOrder []string
-	atIdxOrder, rtIdxOrder, parOrder, deviceOrder             []string
+	atIdxOrder, rtIdxOrder, parOrder, deviceOrder              []string
 }
 
 func cp(xs []string) []string { return append([]string(nil), xs...) }
